@@ -88,7 +88,8 @@ fn new_deps(oracle: Arc<Mutex<Oracle>>) -> OwnedDeps<MockStorage, MockApi, MockQ
     }
 }
 
-pub const ADDRS: &[&str] = &["nobody", "engine", "insurance", "owner", "pricefeed", "stranger", "newowner", "engine2"];
+// "engin" / "engine2": a proper prefix / an extension of the engine's address (an address is compared as a whole, not by prefix)
+pub const ADDRS: &[&str] = &["nobody", "engine", "insurance", "owner", "pricefeed", "stranger", "newowner", "engine2", "engin"];
 
 pub fn addr_id(a: &str) -> u64 {
     ADDRS.iter().position(|x| *x == a).unwrap_or(0) as u64
@@ -399,7 +400,7 @@ fn cur_state(vh: &VH) -> StateResponse {
 pub fn step(vh: &mut VH, r: &mut Rng, stats: &mut Stats) -> String {
     let st = cur_state(vh);
     let d = vh.dec.max(1);
-    let sender = if r.chance(1, 25) { *r.pick(&["owner", "stranger", "insurance"]) } else { "engine" };
+    let sender = if r.chance(1, 25) { *r.pick(&["owner", "stranger", "insurance", "engine2", "engin"]) } else { "engine" };
     let choice = r.below(100);
     if choice < 34 {
         // ---- swap_input
